@@ -568,13 +568,16 @@ class Rewriter:
         pos = 0
         while True:
             m = mask(code)
-            mm = re.compile(r'\.\s*(all|any)\s*\(\s*\|').search(m, pos)
+            mm = re.compile(r'\.\s*(all|any|map|is_some_and)\s*\(\s*\|').search(m, pos)
             if not mm:
                 break
             bar1 = mm.end() - 1
             bar2 = m.index('|', bar1 + 1)
             op = m.rfind('(', 0, bar1 + 1)
             cp = match_close(m, op)
+            if mm.group(1) == 'map' and not re.match(r'\s*\.\s*unwrap_or\s*\(\s*(false|true)\s*\)', m[cp + 1:]):
+                pos = cp
+                continue
             params = code[bar1 + 1:bar2]
             body = code[bar2 + 1:cp].strip()
             if body.startswith('->'):
@@ -591,6 +594,31 @@ class Rewriter:
         return code
 
     # ---- R5/R6: method call -> wrapper function  RECV.m(args) -> vx::f(RECV', args)
+    # ---- R4b: closures given to .and_then( : result specified with equal() (return type inferred)
+    def and_then_closures(self, code):
+        n = 0
+        pos = 0
+        while True:
+            m = mask(code)
+            mm = re.compile(r'\.\s*and_then\s*\(\s*\|').search(m, pos)
+            if not mm:
+                break
+            bar1 = mm.end() - 1
+            bar2 = m.index('|', bar1 + 1)
+            op = m.rfind('(', 0, bar1 + 1)
+            cp = match_close(m, op)
+            params = code[bar1 + 1:bar2]
+            body = code[bar2 + 1:cp].strip()
+            if body.startswith('->') or '{' in body:
+                pos = cp
+                continue
+            rep = '|%s| -> (o__: _) ensures equal(o__, (%s)) { %s }' % (params, to_spec(body), body)
+            code = code[:bar1] + rep + code[cp:]
+            pos = bar1 + len(rep)
+            n += 1
+        self.note('and_then-closure-gets-body-as-ensures', n)
+        return code
+
     def method_to_fn(self, code, rules):
         """rules: list of (regex on '.name(' text incl. turbofish, wrapper, recv_mode)
         recv_mode: 'ref' pass &RECV unless RECV is already a reference expression; 'val' pass as is"""
@@ -605,6 +633,13 @@ class Rewriter:
                 if not mm:
                     break
                 dot = mm.start()
+                if mode == 'replace_whole':
+                    rep = mm.expand(wrapper)
+                    # text of identifiers must come from the real code, not the mask (identical for identifiers)
+                    code = code[:mm.start()] + rep + code[mm.end():]
+                    pos = mm.start() + len(rep)
+                    n += 1
+                    continue
                 if mode in ('rename', 'rename_whole', 'rename_keep_tail'):
                     new = mm.expand(wrapper) if '\\' in wrapper else wrapper
                     if mode == 'rename':
@@ -793,6 +828,7 @@ class Rewriter:
             code = self.str_match(code)
         if not opts.get('no_pred_closures'):
             code = self.pred_closures(code)
+            code = self.and_then_closures(code)
         code = self.method_to_fn(code, METHOD_RULES_PRE)
         if not opts.get('no_str_slice'):
             code = self.str_slices(code, skip_names=tuple(opts.get('noslice', ())))
@@ -811,6 +847,7 @@ def to_spec(expr: str) -> str:
     e = re.sub(r'([A-Za-z_][A-Za-z0-9_.]*)\s*\.\s*(?:vx_)?contains\s*\(\s*("(?:\\.|[^"\\])*")\s*\)', r'vx::contains_seq(\1@, \2@)', e)
     e = re.sub(r'([A-Za-z_][A-Za-z0-9_.]*)\s*\.\s*(?:vx_)?starts_with\s*\(\s*("(?:\\.|[^"\\])*")\s*\)', r'vx::is_sub_at(\1@, \2@, 0)', e)
     e = e.replace('.as_str()@', '@')
+    e = re.sub(r'([A-Za-z_][A-Za-z0-9_.]*)\s*\.\s*as_ref\s*\(\s*\)', r'vx::opt_ref(&\1)', e)
     return e
 
 
@@ -910,6 +947,7 @@ METHOD_RULES_PRE = [
     (r'\.\s*all\s*\(', 'vx::vec_all', 'strip_iter', 'vec.iter().all->vx::vec_all'),
 ]
 METHOD_RULES = [
+    (r'\(\s*&\s*([A-Za-z_][A-Za-z0-9_.]*)\s+as\s+&\s*dyn\s+Any\s*\)\s*\.\s*downcast_ref\s*::\s*<\s*(?:[A-Za-z_0-9]+\s*::\s*)*([A-Za-z_0-9]+)\s*>\s*\(\s*\)', r'crate::anyx::downcast_\2(&\1)', 'replace_whole', '(&x as &dyn Any).downcast_ref::<T>()->anyx::downcast_T(&x)'),
     (r'\.\s*parse\s*::\s*<\s*(u32|i32|u8|u16|usize|f64)\s*>\s*\(', r'vx_parse_\1', 'rename', 'str.parse::<T>->vx_parse_T'),
     (r'\.\s*trim_start_matches\s*\(\s*\|\s*c\s*:\s*char\s*\|\s*c\s*\.\s*is_whitespace\s*\(\s*\)\s*\)', 'vx_trim_start()', 'rename_whole', 'str.trim_start_matches(is_whitespace)->vx_trim_start'),
     (r'\.\s*chars\s*\(\s*\)\s*\.\s*nth\s*\(', 'vx_nth_char', 'rename', 'str.chars().nth->vx_nth_char'),
